@@ -1,3 +1,201 @@
-From BiomV Require Import Model.Subset Model.Slicer.
-Theorem placeholder : True. Proof. exact I. Qed.
-Print Assumptions placeholder.
+(* C14: subsetting while reading equals reading everything and then filtering.
+   Statements only; the proofs are in Proofs/SubsetProofs.v, Proofs/SlicerProofs.v and (closed
+   witnesses) Proofs/C14Witness.v.  Models: Model/Subset.v (HDF5 readers on the stored arrays,
+   parse_table on a loaded table), Model/Slicer.v (the JSON text slicer of `biom subset-table`). *)
+From Coq Require Import List Arith ZArith Bool Permutation.
+From BiomV Require Import Base.Tree Base.ListUtil Base.Matrix Model.Table Model.Subset Model.Slicer
+  Proofs.SubsetProofs Proofs.SlicerProofs Proofs.C14Witness.
+Import ListNotations.
+
+(* ================================================================== HDF5, default variant *)
+(* Reading a well-formed file restricted to a set of known ids (any order, no repetition) gives
+   exactly: read everything, keep the ids of the set in FILE order with their vectors and
+   metadata, then drop the vectors of the OTHER axis that became all-zero. *)
+Theorem hdf5_subset_eq : forall ids_ a f,
+  wf_file f -> NoDup ids_ -> ids_ <> [] -> (forall i, In i ids_ -> In i (file_ids a f)) ->
+  from_hdf5_subset ids_ a f = ROk (drop_empty_other a (filter_ids ids_ a (from_hdf5_all f))).
+Proof. exact hdf5_subset_eq_proof. Qed.
+Print Assumptions hdf5_subset_eq.
+
+Example hdf5_subset_eq_nonvacuous :
+  wf_file f0 /\ NoDup [30; 10]%Z /\ (forall i, In i [30; 10]%Z -> In i (file_ids Obs f0)) /\
+  from_hdf5_subset [30; 10]%Z Obs f0
+    = ROk (mkT [10; 30]%Z [40; 50; 60]%Z [[0; 1; 2]; [3; 0; 4]]%Z (Some [I 1; I 3]) None 1%Z).
+Proof.
+  split; [apply wf_fileb_ok; exact wit_f0_wf|]. split; [repeat constructor; simpl; intuition discriminate|].
+  split; [intros i [H|[H|[]]]; subst; simpl; tauto|exact wit_f0_obs].
+Qed.
+
+(* A request naming an id that is not in the file is refused (ValueError). *)
+Theorem hdf5_subset_refuses : forall ids_ a f,
+  wf_file f -> (exists i, In i ids_ /\ ~ In i (file_ids a f)) -> from_hdf5_subset ids_ a f = RErr E_VALUE.
+Proof. exact hdf5_subset_refuses_proof. Qed.
+Print Assumptions hdf5_subset_refuses.
+
+(* The caller's order is irrelevant. *)
+Theorem hdf5_subset_order_irrelevant : forall ids1 ids2 a f,
+  Permutation ids1 ids2 -> from_hdf5_subset ids1 a f = from_hdf5_subset ids2 a f.
+Proof. exact hdf5_subset_order_proof. Qed.
+Print Assumptions hdf5_subset_order_irrelevant.
+
+(* Outside the property's domain, recorded: a request repeating an id is refused by this variant
+   (the metadata-free variant accepts it, see wit_f0_repeated). *)
+Theorem hdf5_subset_repeated_id_refused : forall ids_ a f,
+  wf_file f -> ~ NoDup ids_ -> from_hdf5_subset ids_ a f = RErr E_VALUE.
+Proof. exact hdf5_subset_dup_refused_proof. Qed.
+Print Assumptions hdf5_subset_repeated_id_refused.
+
+(* ================================================================== HDF5, metadata-free variant *)
+(* subset_with_metadata=False: the same ids and matrix, no metadata, no type, and the vectors
+   emptied by the subset are KEPT. *)
+Theorem hdf5_subset_nomd_eq : forall ids_ a f,
+  wf_file f -> ids_ <> [] -> (forall i, In i ids_ -> In i (file_ids a f)) ->
+  from_hdf5_subset_nomd ids_ a f = ROk (strip_md (filter_ids ids_ a (from_hdf5_all f))).
+Proof. exact hdf5_subset_nomd_eq_proof. Qed.
+Print Assumptions hdf5_subset_nomd_eq.
+
+Example hdf5_subset_nomd_eq_nonvacuous :
+  wf_file f0 /\ (forall i, In i [40]%Z -> In i (file_ids Samp f0)) /\
+  from_hdf5_subset_nomd [40]%Z Samp f0 = ROk (mkT [10; 20; 30]%Z [40]%Z [[0]; [0]; [3]]%Z None None 0%Z).
+Proof.
+  split; [apply wf_fileb_ok; exact wit_f0_wf|]. split; [intros i [H|[]]; subst; simpl; tauto|exact wit_f0_samp_nomd].
+Qed.
+
+Theorem hdf5_subset_nomd_refuses : forall ids_ a f,
+  (exists i, In i ids_ /\ ~ In i (file_ids a f)) -> from_hdf5_subset_nomd ids_ a f = RErr E_VALUE.
+Proof. exact hdf5_subset_nomd_refuses_proof. Qed.
+Print Assumptions hdf5_subset_nomd_refuses.
+
+Theorem hdf5_subset_nomd_order_irrelevant : forall ids1 ids2 a f,
+  (forall i, In i ids1 <-> In i ids2) -> from_hdf5_subset_nomd ids1 a f = from_hdf5_subset_nomd ids2 a f.
+Proof. exact hdf5_subset_nomd_order_proof. Qed.
+Print Assumptions hdf5_subset_nomd_order_irrelevant.
+
+(* ================================================================== parse_table(json, ids=, axis=) *)
+(* load everything, filter, drop the other-axis vectors that became all-zero; for every table *)
+Theorem parse_table_subset_eq : forall ids_ a t,
+  parse_table_subset ids_ a t = drop_empty_other a (filter_ids ids_ a t).
+Proof. exact parse_table_subset_eq_proof. Qed.
+Print Assumptions parse_table_subset_eq.
+
+(* only the SET of requested ids matters ... *)
+Theorem filter_ids_set : forall ids1 ids2 a t,
+  (forall i, In i ids1 <-> In i ids2) -> filter_ids ids1 a t = filter_ids ids2 a t.
+Proof. exact filter_ids_set_proof. Qed.
+Print Assumptions filter_ids_set.
+
+(* ... and this reader does not refuse unknown ids, it ignores them (recorded; the property
+   requires refusal only from the HDF5 reader and the command) *)
+Theorem parse_table_unknown_ignored : forall ids_ a t,
+  parse_table_subset ids_ a t = parse_table_subset (filter (fun i => zmem i (ids a t)) ids_) a t.
+Proof. exact parse_table_unknown_ignored_proof. Qed.
+Print Assumptions parse_table_unknown_ignored.
+
+(* ================================================================== the JSON text slicer *)
+(* For EVERY whitespace choice of the printer (any blanks after '[', ',' and before ']': compact,
+   json.dumps default, any indent), every list of entries (the empty one included) and every
+   set of kept indices, the text the slicer returns reads back as the kept entries with the
+   kept indices renumbered 0..k-1 in increasing order. *)
+Theorem slice_obs_ws : forall w l keep, ws_ok w -> triples_ok l ->
+  exists out, slice_obs (print_inner w l) keep = ROk out /\ parse_triples out = Some (subset_obs keep l).
+Proof. exact slice_obs_ws_proof. Qed.
+Print Assumptions slice_obs_ws.
+
+Theorem slice_samp_ws : forall w l keep, ws_ok w -> triples_ok l ->
+  exists out, slice_samp (print_inner w l) keep = ROk out /\ parse_triples out = Some (subset_samp keep l).
+Proof. exact slice_samp_ws_proof. Qed.
+Print Assumptions slice_samp_ws.
+
+Example slice_ws_nonvacuous :
+  ws_ok ws_compact /\ ws_ok ws_default /\ ws_ok ws_indent2 /\
+  triples_ok [(0, 1, [49; 46; 48]%Z); (2, 0, [45; 51; 101; 45; 55]%Z)]%nat.
+Proof.
+  split; [exact ws_compact_ok|]. split; [exact ws_default_ok|]. split; [exact ws_indent2_ok|].
+  repeat constructor; discriminate.
+Qed.
+
+(* the same result for every serialisation of the same entries *)
+Theorem slice_ws_independent : forall w1 w2 l keep, ws_ok w1 -> ws_ok w2 -> triples_ok l ->
+  slice_obs (print_inner w1 l) keep = slice_obs (print_inner w2 l) keep /\
+  slice_samp (print_inner w1 l) keep = slice_samp (print_inner w2 l) keep.
+Proof. exact slice_ws_indep_proof. Qed.
+Print Assumptions slice_ws_independent.
+
+(* the reference reader used above reads back every printing of every entry list *)
+Theorem parse_triples_print_ws : forall w l, ws_ok w -> triples_ok l -> parse_triples (print_ws w l) = Some l.
+Proof. exact parse_print_ws. Qed.
+Print Assumptions parse_triples_print_ws.
+
+(* the renumbering table: the i-th smallest kept index is mapped to i, so order is preserved *)
+Theorem remap_sorted : forall keep,
+  (forall i, (i < length (sorted_set keep))%nat ->
+     lookup_get (print_nat (nth i (sorted_set keep) 0%nat)) (remap_lookup keep) = Some i) /\
+  (forall x, lookup_get (print_nat x) (remap_lookup keep) = if nmem x keep then Some (rank keep x) else None) /\
+  (forall a b, In a keep -> (a < b)%nat -> (rank keep a < rank keep b)%nat).
+Proof.
+  intros keep. split; [apply remap_sorted_nth|]. split; [apply lookup_remap|apply rank_monotone].
+Qed.
+Print Assumptions remap_sorted.
+
+(* direct_parse_key on a header pair "key":<blanks><value>: a string value may contain anything
+   (commas, quotes, brackets, braces: the printer escapes them); null / true / numbers end at the
+   next ',' or '}'.  Hypothesis: the text "key": does not occur earlier in the document. *)
+Theorem parse_key_ok : forall pre key w v post,
+  no_occ_before (key_pat key) (pre ++ print_pair key w v ++ post) (length pre) ->
+  Forall (fun c => is_space c = true) w -> hvalue_ok v -> post_ok v post ->
+  direct_parse_key (pre ++ print_pair key w v ++ post) key = ROk (print_pair key w v).
+Proof. exact parse_key_ok_proof. Qed.
+Print Assumptions parse_key_ok.
+
+(* the "data" array is found by bracket matching and cut out exactly, for every whitespace choice *)
+Theorem parse_key_data_ok : forall pre sp w l post,
+  no_occ_before (key_pat K_DATA) (pre ++ (key_pat K_DATA ++ sp ++ print_ws w l) ++ post) (length pre) ->
+  Forall (fun c => is_space c = true) sp -> ws_ok w -> plain_vals l ->
+  direct_parse_key (pre ++ (key_pat K_DATA ++ sp ++ print_ws w l) ++ post) K_DATA
+    = ROk (key_pat K_DATA ++ sp ++ print_ws w l)
+  /\ data_inner (key_pat K_DATA ++ sp ++ print_ws w l) = print_inner w l.
+Proof. exact parse_key_data_ok_proof. Qed.
+Print Assumptions parse_key_data_ok.
+
+(* the whole command on library-written documents: the model returns, character for character,
+   what the implementation wrote (compact input; indent=2 input; a subset keeping no stored
+   entry and an all-zero table, both repaired as F33; an unknown id is refused with KeyError) *)
+Theorem subset_json_examples :
+  subset_json doc_ok Obs [id_o3; id_o1] = ROk out_obs /\
+  subset_json doc_indent Samp [id_s3] = ROk out_samp_indent /\
+  subset_json doc_ok Obs [id_o2] = ROk out_gap /\
+  subset_json doc_zero Samp [id_s2; id_s1] = ROk out_zero /\
+  subset_json doc_ok Obs [id_o1; id_s1] = RErr E_KEY.
+Proof.
+  split; [exact wit_subset_obs|]. split; [exact wit_subset_samp_indent|]. split; [exact wit_no_entry_kept|].
+  split; [exact wit_zero_table|exact wit_unknown_id].
+Qed.
+Print Assumptions subset_json_examples.
+
+(* ---- refuted: the array/object scanner of direct_parse_key (known finding F34).
+   A valid document whose first row id contains ']' : the "rows" pair returned runs on into
+   "columns" and is not JSON; subsetting observations raises ValueError, subsetting samples
+   writes a document that is not JSON.  One unpaired quote in an id does the same. *)
+Theorem parse_key_scanner_refuted :
+  exists doc, json_loads doc <> None /\
+    (exists kv, direct_parse_key doc K_ROWS = ROk kv /\ json_loads ([LBRACE] ++ kv ++ [RBRACE]) = None) /\
+    subset_json doc Obs [id_o2] = RErr E_VALUE /\
+    (exists out, subset_json doc Samp [id_s2] = ROk out /\ json_loads out = None).
+Proof.
+  exists doc_bracket. split; [exact (proj1 wit_bracket_valid)|].
+  split; [exists bracket_rows; exact wit_bracket_rows|]. split; [exact wit_bracket_obs|].
+  exists out_bracket_samp. exact wit_bracket_samp.
+Qed.
+Print Assumptions parse_key_scanner_refuted.
+
+Theorem parse_key_scanner_quote_refuted :
+  exists doc, json_loads doc <> None /\ subset_json doc Obs [id_o2] = RErr E_VALUE.
+Proof. exists doc_quote. split; [exact (proj1 (proj2 wit_bracket_valid))|exact wit_quote_obs]. Qed.
+Print Assumptions parse_key_scanner_quote_refuted.
+
+(* ---- refuted: key lookup by raw text search (known finding F35).  Observation metadata with a
+   key named "columns": that occurrence is found first and `"columns": 1` is stitched in. *)
+Theorem parse_key_first_occurrence_refuted :
+  exists doc, json_loads doc <> None /\ direct_parse_key doc K_COLUMNS = ROk columns_is_1.
+Proof. exists doc_mdkey. split; [exact (proj2 (proj2 wit_bracket_valid))|exact wit_mdkey]. Qed.
+Print Assumptions parse_key_first_occurrence_refuted.
